@@ -5,6 +5,8 @@ package main
 import (
 	"bytes"
 	"fmt"
+	"os"
+	"path/filepath"
 	"runtime/debug"
 	"strings"
 	"sync/atomic"
@@ -61,11 +63,20 @@ func runSchema(text string, withValidate bool) outcome {
 			done <- o
 		}()
 		transitions.Add(1)
-		f, warns, err := bebop.ReadFile(strings.NewReader(text))
+		settings := bebop.GenerateSettings{PackageName: "p"}
+		rootText, rootPath, cleanup := materialise(text)
+		defer cleanup()
+		f, warns, err := bebop.ReadFile(strings.NewReader(rootText))
 		o.Warnings = warns
 		if err != nil {
 			o.Stage, o.Err = "ReadFile", err.Error()
 			return
+		}
+		if rootPath != "" {
+			// a schema spread over several files: the root imports the others, generated in combined mode
+			f.FileName = rootPath
+			settings.ImportGenerationMode = bebop.ImportGenerationModeCombined
+			withValidate = false // Validate on the root alone knows nothing of the imported definitions
 		}
 		if withValidate {
 			stage.Store("Validate")
@@ -78,7 +89,7 @@ func runSchema(text string, withValidate bool) outcome {
 		stage.Store("Generate")
 		transitions.Add(1)
 		var buf bytes.Buffer
-		if err := f.Generate(&buf, bebop.GenerateSettings{PackageName: "p"}); err != nil {
+		if err := f.Generate(&buf, settings); err != nil {
 			o.Stage, o.Err = "Generate", err.Error()
 			return
 		}
@@ -93,6 +104,37 @@ func runSchema(text string, withValidate bool) outcome {
 		// the goroutine is abandoned; it dies with the process
 		return outcome{Hung: true, Stage: stage.Load().(string)}
 	}
+}
+
+// fileMarker starts a new file inside a multi-file schema text: "//--- file: sub/common.bop". The first file is the root.
+const fileMarker = "//--- file: "
+
+// materialise writes a multi-file schema into a scratch directory and returns the root's text and path; single-file texts
+// are returned unchanged with an empty path.
+func materialise(text string) (rootText, rootPath string, cleanup func()) {
+	if !strings.HasPrefix(text, fileMarker) {
+		return text, "", func() {}
+	}
+	dir, err := os.MkdirTemp("", "c13-files-")
+	if err != nil {
+		panic(err)
+	}
+	var names []string
+	files := map[string]string{}
+	for _, part := range strings.Split(text, fileMarker)[1:] {
+		nl := strings.Index(part, "\n")
+		name := strings.TrimSpace(part[:nl])
+		names = append(names, name)
+		files[name] = part[nl+1:]
+	}
+	for n, t := range files {
+		p := filepath.Join(dir, n)
+		os.MkdirAll(filepath.Dir(p), 0o755)
+		if err := os.WriteFile(p, []byte(t), 0o644); err != nil {
+			panic(err)
+		}
+	}
+	return files[names[0]], filepath.Join(dir, names[0]), func() { os.RemoveAll(dir) }
 }
 
 // firstRepoFrame names the innermost function of package bebop on a panic stack (no line numbers: stable signatures).
